@@ -41,6 +41,19 @@ def replay_thr(arg):
         got = "raised %s" % type(ex).__name__
         ok = False
     rep["impl"] = repr(got)
+    # the public shape checks accept exactly the values that are already in normal form (one value per label, all numeric)
+    if isinstance(py0, list) and py0:        # (an empty list is "no threshold row at all": the helpers have nothing to check)
+        from perception_eval.common.threshold import check_nested_thresholds, check_thresholds
+
+        normal = out[0] != "err" and py0 == ([list(r) for r in out[1]] if nest else list(out[1]))
+        try:
+            (check_nested_thresholds if nest else check_thresholds)(copy.deepcopy(py0), n)
+            acc = True
+        except Exception:
+            acc = False
+        if acc != normal:
+            return [("shape-check-%s" % ("accepts-non-normal" if acc else "rejects-normal"), "%s(%r, %d) %s" % ("check_nested_thresholds" if nest else "check_thresholds", py0, n,
+                                                                                                         "accepted" if acc else "raised"), rep)]
     if repr(py) != repr(py0):
         return [("specification-rewritten", "set_thresholds(%r, %d, %s) rewrote its argument to %r" % (py0, n, nest, py), rep)]
     if out[0] == "err":
